@@ -209,11 +209,14 @@ def scenario_from_emit(rec):
     return {'names': names_py, 'host': host, 'calls': calls}, rec['summary']
 
 
-def replay_emitted(rep, records, deviations_open, sample=None, seed=0, what='scenario'):
-    """Replay TLC-emitted scenarios on the real code, validate the recorded traces with TraceVM."""
+def replay_emitted(rep, records, deviations_open, sample=None, seed=0, what='scenario', always=None):
+    """Replay TLC-emitted scenarios on the real code, validate the recorded traces with TraceVM.
+    always(rec) -> True for records that are replayed whatever the sample."""
     rng = random.Random(seed)
     if sample is not None and len(records) > sample:
-        records = rng.sample(records, sample)
+        keep = [r for r in records if always and always(r)]
+        rest = [r for r in records if not (always and always(r))]
+        records = keep + rng.sample(rest, max(0, min(len(rest), sample - len(keep))))
     scns, sums, skipped = [], [], 0
     for rec in records:
         try:
